@@ -4,7 +4,8 @@
     run-time sizes reaching the alloc through test.op results, constants, memref.dim or block arguments).
 (b) `place_case`: allocation programs for `snax-allocate`: one function whose body is a sequence of top-level statements
     (snax.alloc + unrealized cast exactly as memref-to-snax emits them, views, opaque uses at top level and nested in
-    scf.for / scf.if, memref-valued scf.if results), plus memory descriptions (start, capacity) and the mode.
+    scf.for / scf.if, memref-valued scf.if results, values merged from two buffers of equal type by arith.select / scf.if),
+    plus memory descriptions (start, capacity) and the mode.
 
 Recipes are plain JSON. `build_size` / `build_place` turn a recipe into MLIR text (generic form) plus the facts the oracle
 needs. The liveness computed in `build_place` is the reference: it is computed on the recipe while the text is emitted and
@@ -196,7 +197,7 @@ def memories(draw):
     return out
 
 
-_REF = st.tuples(st.sampled_from([0, 0, 1, 1, 2]), st.integers(0, 11)).map(list)
+_REF = st.tuples(st.sampled_from([0, 0, 0, 1, 1, 1, 2, 2, 3]), st.integers(0, 11)).map(list)
 
 
 @st.composite
@@ -263,6 +264,35 @@ def _ctl_stmt(draw, depth=0):
 
 
 @st.composite
+def _merge_stmt(draw, a=None):
+    view = None
+    if draw(st.sampled_from([True, False, False])):
+        view = dict(op="view", kind=draw(st.sampled_from(["subview", "subview", "lcast", "scast", "ucast"])), src=[0, 0],
+                    p=[draw(st.integers(0, 7)) for _ in range(6)])
+    return dict(op="merge", kind=draw(st.sampled_from(["select", "if"])), a=a if a is not None else draw(_REF),
+                b=draw(st.integers(0, 5)), view=view)
+
+
+@st.composite
+def _pingpong(draw, mems, main, fill_often):
+    """a = alloc; b = alloc like a; [direct uses]; g = select/if(a | b) (or of equal views); [more statements]; c = alloc like a;
+    use(c); late uses of g at top level or nested. Both a and b must stay live until the last use of g."""
+    out = [draw(_alloc_stmt(mems, False, main, False)), dict(op="alloc", like=-1, align=draw(st.sampled_from(ALIGNS)), aty="i64")]
+    for _ in range(draw(st.integers(0, 2))):
+        out.append(dict(op="use", refs=[[2, draw(st.sampled_from([-1, -2]))]]))
+    out.append(draw(_merge_stmt(a=[2, draw(st.sampled_from([-1, -2]))])))
+    for _ in range(draw(st.integers(0, 2))):
+        out.append(draw(st.one_of(_use_stmt(), _view_stmt())))
+    out.append(dict(op="alloc", like=-1, align=draw(st.sampled_from(ALIGNS)), aty="i64"))
+    out.append(dict(op="use", refs=[[2, -1]]))
+    for _ in range(draw(st.integers(1, 2))):
+        u = dict(op="use", refs=[[3, draw(st.integers(0, 3))]])
+        k = draw(st.sampled_from([0, 0, 1, 2]))
+        out.append(u if k == 0 else dict(op="for", body=[u]) if k == 1 else dict(op="if", then=[u], **{"else": []}))
+    return out
+
+
+@st.composite
 def place_case(draw, tier="quick"):
     mode = draw(st.sampled_from(["static", "minimalloc", "minimalloc", "auto"]))
     mems = draw(memories())
@@ -280,13 +310,19 @@ def place_case(draw, tier="quick"):
             stmts.append(draw(_view_stmt()))
         elif k <= 15:
             stmts.append(draw(_use_stmt()))
-        elif k <= 18:
+        elif k <= 17:
             stmts.append(draw(_ctl_stmt()))
+        elif k == 18:
+            stmts.append(draw(_merge_stmt()))
         else:
             stmts.append(dict(op="ifres", a=draw(_REF), b=draw(_REF)))
+    if not dyn_ok and draw(st.sampled_from([True, False, False, False])):
+        # ping-pong pattern spliced in after a prefix of the random statements
+        at = draw(st.integers(1, len(stmts)))
+        stmts[at:at] = draw(_pingpong(mems, main, mode == "static"))
     # tail: late uses, preferably through views
     for _ in range(draw(st.integers(0, 3))):
-        stmts.append(dict(op="use", refs=[[draw(st.sampled_from([1, 1, 0])), draw(st.integers(0, 11))]]))
+        stmts.append(dict(op="use", refs=[[draw(st.sampled_from([1, 1, 0, 3])), draw(st.integers(0, 11))]]))
     ret = draw(_REF) if draw(st.sampled_from([True] + [False] * 7)) else None
     out = dict(mode=mode, mems=mems, stmts=stmts, ret=ret)
     if not dyn_ok and draw(st.sampled_from([True] + [False] * 5)):
@@ -329,6 +365,9 @@ class PlaceBuilt:
         self.stmts = []  # the statements really emitted (front mode may append uses)
         self.access = []  # per top-level stmt: set of roots accessed by an opaque op (through any alias)
         self.access_view = []  # per top-level stmt: roots accessed through a value that is not the buffer's own cast
+        self.access_merged = []  # per top-level stmt: roots accessed through a value merged from several buffers
+        self.access_merged2 = []  # per top-level stmt: roots accessed through a value merged from several buffers, except the
+        #                           first-allocated source of that value
         self.features = set()
         self.ret_roots = set()
         self.static_expect = None  # ("ok", {k: addr}) | ("full", k)
@@ -354,7 +393,8 @@ def build_place(r) -> PlaceBuilt:
         return f"%{prefix}{counter[0]}"
 
     def pick(vis, ref):
-        """Resolve a reference [class, index] against the visible values: class 1 prefers views, class 2 roots."""
+        """Resolve a reference [class, index] against the visible values: class 1 prefers views, class 2 roots, class 3 values
+        merged from several buffers (arith.select / scf.if results and their views)."""
         if not vis:
             return None
         cls, i = ref
@@ -363,20 +403,25 @@ def build_place(r) -> PlaceBuilt:
             pool = [v for v in vis if not v.is_root] or vis
         elif cls == 2:
             pool = [v for v in vis if v.is_root] or vis
+        elif cls == 3:
+            pool = [v for v in vis if len(v.roots) > 1] or vis
         return pool[i % len(pool)]
 
-    cur = dict(access=set(), aview=set())
+    cur = dict(access=set(), aview=set(), amerge=set(), amerge2=set())
 
     def access(v):
         """Record that an opaque op (or the return) of the current top-level statement uses value v."""
         cur["access"].update(v.roots)
         if not v.is_root:
             cur["aview"].update(v.roots)
+        if len(v.roots) > 1:
+            cur["amerge"].update(v.roots)
+            cur["amerge2"].update(k for k in v.roots if k != min(v.roots))
 
-    def emit_view(s, vis, pad, depth):
-        src = pick(vis, s["src"])
+    def emit_view(s, vis, pad, depth, src=None):
+        src = src if src is not None else pick(vis, s["src"])
         if src is None:
-            return
+            return None
         p = s["p"]
         kind = s["kind"]
         if kind == "subview" and src.strides is None:
@@ -430,6 +475,7 @@ def build_place(r) -> PlaceBuilt:
         if not src.is_root:
             out.features.add("view-chain")
         vis.append(v)
+        return v
 
     def emit_use(s, vis, pad, depth, tag):
         vals = [pick(vis, ref) for ref in s["refs"]]
@@ -477,6 +523,7 @@ def build_place(r) -> PlaceBuilt:
             emit_ctl(s, vis, pad, depth, tag)
 
     top: list[_Val] = []
+    specs: list[dict] = []
     pad = "    "
     stmts = list(r["stmts"])
     t = -1
@@ -491,11 +538,15 @@ def build_place(r) -> PlaceBuilt:
             stmts.append(dict(op="use", refs=[[2, missing[0]]]))
         t += 1
         s = stmts[t]
-        cur = dict(access=set(), aview=set())
+        cur = dict(access=set(), aview=set(), amerge=set(), amerge2=set())
         tag = f"{{c11.stmt = {t} : i64}} "
         op = s["op"]
         if op == "alloc":
             k = len(out.bufs)
+            if "like" in s and specs:
+                # a second buffer of exactly the same memref type as an earlier one (ping-pong buffers): own alignment only
+                s = dict(specs[s["like"] % len(specs)], align=s.get("align"), aty=s.get("aty", "i64"))
+                out.features.add("alloc:like-earlier")
             mem = mem_names[s["mem"] % len(mem_names)]
             align = s.get("align")
             dyn = bool(s.get("dynsize"))
@@ -522,6 +573,7 @@ def build_place(r) -> PlaceBuilt:
             strides = [1] * len(shape)
             for d in range(len(shape) - 2, -1, -1):
                 strides[d] = strides[d + 1] * shape[d + 1]
+            specs.append(dict({kk: vv for kk, vv in s.items() if kk not in ("fill", "like")}, size=size))
             lay = None
             if s.get("lay") and "fill" not in s and not dyn:
                 lay = dict(dims=[[[st_ * (1 + s["lay"]), e]] for st_, e in zip(strides, shape)], offset=s.get("loff", 0))
@@ -575,12 +627,40 @@ def build_place(r) -> PlaceBuilt:
                 top.append(_Val(name=nm, ty=a.ty, elt=a.elt, shape=list(a.shape), strides=a.strides, offset=a.offset, space=a.space,
                                 roots=frozenset(a.roots | b.roots), is_root=False, depth=0))
                 out.features.add("region-result")
+        elif op == "merge":
+            # one value that is buffer A (or a view of A) on one path and buffer B (or the same view of B) on the other
+            a = pick(top, s["a"])
+            if a is not None:
+                cands = [v for v in top if v.ty == a.ty and not (v.roots & a.roots)] or [v for v in top if v.ty == a.ty and v is not a] or [a]
+                b = cands[s["b"] % len(cands)]
+                if s.get("view"):
+                    a = emit_view(s["view"], top, pad, 0, src=a)
+                    b = emit_view(s["view"], top, pad, 0, src=b)
+                    if b.ty != a.ty:  # cannot happen for equal source types; keep the IR valid anyway
+                        b = a
+                nm = fresh("g")
+                if s["kind"] == "select":
+                    L.append(f'{pad}{nm} = "arith.select"(%cond, {a.name}, {b.name}) {tag}: (i1, {a.ty}, {b.ty}) -> {a.ty}')
+                    out.features.add("merge:select")
+                else:
+                    L.append(f'{pad}{nm} = "scf.if"(%cond) ({{')
+                    L.append(f'{pad}  "scf.yield"({a.name}) : ({a.ty}) -> ()')
+                    L.append(f'{pad}}}, {{')
+                    L.append(f'{pad}  "scf.yield"({b.name}) : ({b.ty}) -> ()')
+                    L.append(f'{pad}}}) {tag}: (i1) -> ({a.ty})')
+                    out.features.add("merge:if")
+                if a.roots != b.roots:
+                    out.features.add("merge:two-buffers")
+                top.append(_Val(name=nm, ty=a.ty, elt=a.elt, shape=list(a.shape), strides=a.strides, offset=a.offset, space=a.space,
+                                roots=frozenset(a.roots | b.roots), is_root=False, depth=0))
         else:
             emit_stmt(s, top, pad, 0, tag)
         out.access.append(cur["access"])
         out.access_view.append(cur["aview"])
+        out.access_merged.append(cur["amerge"])
+        out.access_merged2.append(cur["amerge2"])
     # terminator
-    cur = dict(access=set(), aview=set())
+    cur = dict(access=set(), aview=set(), amerge=set(), amerge2=set())
     rv = pick(top, r["ret"]) if r.get("ret") is not None else None
     if rv is not None:
         access(rv)
@@ -593,6 +673,8 @@ def build_place(r) -> PlaceBuilt:
         fty = "() -> ()"
     out.access.append(cur["access"])
     out.access_view.append(cur["aview"])
+    out.access_merged.append(cur["amerge"])
+    out.access_merged2.append(cur["amerge2"])
     out.n_stmts = len(stmts)
     out.stmts = stmts
     lines = ['"builtin.module"() ({', f'  "func.func"() <{{sym_name = "f", function_type = {fty}}}> ({{']
